@@ -90,13 +90,18 @@ def main(argv):
     viol, count, samples = [], {}, []
     n = accepted = rejected = 0
 
-    def report(clause, key, detail, ev):
+    def report(clause, key, detail, ev, prop="C13"):
         key = dict(key, clause=clause, op="select")
-        fk = json.dumps(key, sort_keys=True)
+        fk = json.dumps([prop, key], sort_keys=True)
         c = count.get(fk, 0)
         count[fk] = c + 1
         if c < MAXS:
-            viol.append({"property": "C13", "clause": clause, "class_key": key, "detail": detail, "event": ev, "path": [ev]})
+            viol.append({"property": prop, "clause": clause, "class_key": key, "detail": detail, "event": ev, "path": [ev]})
+    # C07 on every labelling and geometry: a transfer into the selection changes exactly the selected wells, by the amount asked
+    water = pp.Substance.liquid("water", 18.0153, 1.0)
+    stock = pp.Container("stock", initial_contents=[(water, "100 mL")])
+    n07 = 0
+    done07 = set()
     # well names of the plate itself (default labels beyond 'Z', custom labels)
     for r in range(nr):
         for c in range(nc):
@@ -130,6 +135,21 @@ def main(argv):
             report("wrong_wells", key, f"plate[{py!r}] selected {got}, specified {exp}", ev)
         elif shape != den["shape"] and len(exp) > 0:
             report("wrong_shape", key, f"plate[{py!r}] has shape {shape}, specified {den['shape']}", ev)
+        # (once per spelling form and selected set: the selection itself was compared for every selector above)
+        if 0 < len(exp) == len(set(exp)) and nr * nc <= 12 and (json.dumps(key, sort_keys=True), tuple(exp)) not in done07:
+            done07.add((json.dumps(key, sort_keys=True), tuple(exp)))
+            n07 += 1
+            try:
+                sl = plate[py] if sel["k"] != "sub" else plate[py[0]][py[1]]
+                _, filled = pp.Plate.transfer(stock, sl, "7 uL")
+                changed = sorted(w.name for w in filled.wells.flatten() if w.volume != 0)
+                wrong = [w.name for w in filled.wells.flatten() if w.name in exp and abs(w.get_volume("uL") - 7) > 1e-6]
+                if changed != sorted(exp) or wrong:
+                    report("operation_on_other_wells", key, f"transfer(stock, plate[{py!r}], '7 uL') changed {changed} (not 7 uL: {wrong}); addressed {sorted(exp)}", ev, prop="C07")
+                elif any(w.volume != 0 for w in plate.wells.flatten()):
+                    report("argument_plate_changed", key, f"transfer(stock, plate[{py!r}], '7 uL') changed the plate it was given", ev, prop="C07")
+            except Exception as e:
+                report("addressed_operation_refused", dict(key, exc=type(e).__name__), f"transfer(stock, plate[{py!r}], '7 uL') raised {type(e).__name__}: {e}", ev, prop="C07")
         if len(samples) < 2 and n % 5003 == 11:
             samples.append({"plate": f"{nr}x{nc} {labels}", "selector": repr(py), "selected": got, "specified": exp})
     os.remove(info["out"])
@@ -137,9 +157,9 @@ def main(argv):
         if os.path.exists(f):
             os.remove(f)
     res = {"instance": tag, "tlc": {k: info[k] for k in ("generated", "distinct", "wall", "cmd")},
-           "counts": {"executed": n, "accepted": accepted, "rejected": rejected}, "evaluated": {"C13": n},
+           "counts": {"executed": n, "accepted": accepted, "rejected": rejected}, "evaluated": {"C13": n, "C07": n07},
            "distinct_states": info["distinct"], "violations": viol,
-           "violation_counts": [{"property": "C13", "class_key": json.loads(fk), "count": c} for fk, c in count.items()],
+           "violation_counts": [{"property": json.loads(fk)[0], "class_key": json.loads(fk)[1], "count": c} for fk, c in count.items()],
            "samples": samples, "wall": time.time() - t0}
     with open(out_path, "w") as fh:
         json.dump(res, fh)
